@@ -262,6 +262,27 @@ def run(ctx, rep):
     from props.c05 import journal_entity_provenance, journalling_sites
     journal_entity_provenance(ctx, rep, 'R10.h', journalling_sites(ctx), only={'ChangePassword', 'CreateUser', 'UpdateUser', 'DeleteUser', 'CreatePersonalAccessToken', 'DeletePersonalAccessToken', 'UpdatePermissions'})
 
+    # ------------------------------------------------------------ R10.i a revocation reaches the file under the lock it was recorded under
+    rep.rule('R10.i', 'logout: JwtManager::revoke_token keeps the write guard on the revocation map until the revocation has been saved (the save loads, updates and overwrites one file: two logouts that save outside the lock lose one of the two revocations, and the lost token is accepted again after a restart)', floor=1, analysis='A4 guard liveness')
+    RT = 'server::http::jwt::jwt_manager::JwtManager::revoke_token'
+    if not ctx.has(RT):
+        rep.anchor_lost('R10.i', RT)
+    else:
+        rb_ = ctx.fn_body(RT)
+        saves_ = [c for c in rb_.calls if 'save_revoked_access_token' in c.name and is_user_call(c)]
+        guards_ = [l for l in range(len(rb_.locals)) if str(rb_.locals[l] if isinstance(rb_.locals[l], str) else rb_.locals[l].get('ty')).startswith('tokio::sync::RwLockWriteGuard<') and rb_.local_name(l) not in (None, 'result')]
+        held_ = False
+        for l in guards_:
+            drops_ = [bb for bb in rb_.reach if rb_.term(bb).get('t') == 'drop' and not rb_.blocks[bb].get('cleanup') and rb_.term(bb)['p'][0] == l]
+            if drops_ and saves_ and not any(c.bb in rb_.reachable(d_) for d_ in drops_ for c in saves_):
+                held_ = True
+        rep.ob('R10.i', RT, 'revocation saved under the write guard', held_ and bool(saves_), saves_[0].where() if saves_ else None, None if held_ else
+               'the write guard on revoked_tokens is released before save_revoked_access_token runs (or is never bound): concurrent logouts overwrite each other in the tokens file')
+
+    # ------------------------------------------------------------ R10.j user ids mean the same user after a restart
+    from props.c05 import user_ids_after_validation
+    user_ids_after_validation(ctx, rep, 'R10.j')
+
 
 def _type_of_expr(ctx, body, e):
     """type path of a param/upvar/local expression, refs stripped"""
